@@ -1,5 +1,5 @@
 import Driver.Loop
-import SquidModel.Cache.ReusableScenario
+import SquidModel.Cache.ReusableNotModified
 open SquidModel SquidModel.Cache
 
 namespace Driver.C11
@@ -32,22 +32,37 @@ def answerName : Answer → String
 def kindName : Kind → String
   | .hit => "hit" | .reval => "reval" | .miss => "miss"
 
-/-- line: `<cfg> <method> <auth> <reqcc> <status> <respcc> <ctype> <date> <exp> <lm> <age> <clen> <pragma> <second>` -/
-def handle (line : String) : String :=
-  match Driver.words line with
+def parseScenario : List String → Option Scenario
   | [cfg, method, auth, reqcc, status, respcc, ctype, date, exp, lm, age, clen, pragma, second] =>
     match parseCfg cfg, hexList reqcc, status.toNat?, hexList respcc, optHex ctype, timeField date, timeField exp, timeField lm,
           optNat age, clen.toNat?, parseSecond second with
     | some cfg, some reqcc, some status, some respcc, some ctype, some date, some exp, some lm, some age, some clen, some second =>
-      if !(auth == "0" || auth == "1" || auth == "2") || !(pragma == "0" || pragma == "1") || date == .bad || lm == .bad then "bad-op" else
-      let sc : Scenario := { cfg := cfg, method := method, authHeader := auth == "1", userInfo := auth == "2", reqCc := reqcc,
-                             status := status, respCc := respcc, contentType := ctype, date := date, expires := exp, lastModified := lm,
-                             age := age, contentLength := clen, pragmaNoCache := pragma == "1", second := second }
+      if !(auth == "0" || auth == "1" || auth == "2") || !(pragma == "0" || pragma == "1") || date == .bad || lm == .bad then none else
+      some { cfg := cfg, method := method, authHeader := auth == "1", userInfo := auth == "2", reqCc := reqcc,
+             status := status, respCc := respcc, contentType := ctype, date := date, expires := exp, lastModified := lm,
+             age := age, contentLength := clen, pragmaNoCache := pragma == "1", second := second }
+    | _, _, _, _, _, _, _, _, _, _, _ => none
+  | _ => none
+
+def showDecision (d : Decision) : String := "d=" ++ answerName d.answer ++ "|" ++ d.reason.replace " " "_"
+
+/-- line: `<cfg> <method> <auth> <reqcc> <status> <respcc> <ctype> <date> <exp> <lm> <age> <clen> <pragma> <second>`,
+    or `R` + the same 14 fields + `<cc of the 304>` for the three-request scenario -/
+def handle (line : String) : String :=
+  match Driver.words line with
+  | "R" :: rest =>
+    if rest.length != 15 then "bad-op" else
+    match parseScenario (rest.take 14), hexList (rest.getD 14 "") with
+    | some sc, some nmcc =>
+      let ks := observeNotModified sc nmcc
+      showDecision sc.decision ++ " k=" ++ kindName ks.1 ++ " k3=" ++ kindName ks.2 ++ " b=" ++ (match ks.2 with | .miss => "3" | _ => "1")
+    | _, _ => "bad-op"
+  | ws =>
+    match parseScenario ws with
+    | some sc =>
       let o := observe sc
-      "d=" ++ answerName o.decision.answer ++ "|" ++ o.decision.reason.replace " " "_" ++ " k=" ++ kindName o.kind ++
-        " b=" ++ toString o.seq
-    | _, _, _, _, _, _, _, _, _, _, _ => "bad-op"
-  | _ => "bad-op"
+      showDecision o.decision ++ " k=" ++ kindName o.kind ++ " b=" ++ toString o.seq
+    | none => "bad-op"
 
 end Driver.C11
 
